@@ -34,6 +34,7 @@ type vOp struct {
 	Use         v3.IPPoolAllowedUse
 	Num         int
 	MaxAlloc    int // auto/assignip: MaxAllocToHandlePerIPVersion
+	NoAttrs     bool // auto/assignip: pass no attributes at all (default: {"node": host})
 }
 
 func (o vOp) String() string {
@@ -63,6 +64,9 @@ func (o vOp) String() string {
 	if o.MustBeEmpty {
 		b.WriteString(" mustBeEmpty")
 	}
+	if o.NoAttrs {
+		b.WriteString(" no-attrs")
+	}
 	return b.String()
 }
 
@@ -88,6 +92,9 @@ func (w *ipamWorld) run(ctx context.Context, op vOp, seqOf map[string]uint64) (r
 			n = 1
 		}
 		args := ipam.AutoAssignArgs{Num4: n, Hostname: op.Host, Attrs: map[string]string{"node": op.Host}, IntendedUse: use, MaxAllocToHandlePerIPVersion: op.MaxAlloc}
+		if op.NoAttrs {
+			args.Attrs = nil
+		}
 		if op.Handle != "" {
 			args.HandleID = ptr(op.Handle)
 		}
@@ -100,6 +107,9 @@ func (w *ipamWorld) run(ctx context.Context, op vOp, seqOf map[string]uint64) (r
 		}
 	case "assignip":
 		args := ipam.AssignIPArgs{IP: cnet.MustParseIP(op.IP), Hostname: op.Host, Attrs: map[string]string{"node": op.Host}}
+		if op.NoAttrs {
+			args.Attrs = nil
+		}
 		if op.Handle != "" {
 			args.HandleID = ptr(op.Handle)
 		}
